@@ -40,19 +40,25 @@ func (t *TransactionBase) Success() {
 	t.mutex.Lock()
 	defer t.mutex.Unlock()
 
-	t.finish()
+	t.finish(nil)
 }
 
+// finish completes the transaction with the given result. A transaction
+// completes only once: if it is already done, the call has no effect (the
+// result is kept and the finally callback is not called again).
+//
 // You must acquire write lock on t.mutex before calling this function!
-func (t *TransactionBase) finish() {
+func (t *TransactionBase) finish(e error) {
+	select {
+	case <-t.done:
+		return
+	default:
+	}
+	t.err = e
 	if t.finally != nil {
 		t.finally()
 	}
-	select {
-	case <-t.done:
-	default:
-		close(t.done)
-	}
+	close(t.done)
 }
 
 // Transaction.Err() implementation.
@@ -68,6 +74,5 @@ func (t *TransactionBase) Fail(e error) {
 	t.mutex.Lock()
 	defer t.mutex.Unlock()
 
-	t.err = e
-	t.finish()
+	t.finish(e)
 }
